@@ -927,7 +927,21 @@ def j_q2m2q(case, r):
     return None
 
 def j_unitary(case, r):
+    """Matrix.unitary of a slightly perturbed rotation: wherever unmasked the result is a rotation matrix close to the
+    operand; masked operands stay masked"""
     a = case['a']
     if tuple(r._shape_) != tuple(a['shape']):
-        return (signature(case) + ':shape', 'unitary: shape')
-    return rot_residual(r, case, 'unitary') if False else None
+        return (signature(case) + ':shape', 'unitary: leading shape %s, expected %s' % (r._shape_, tuple(a['shape'])))
+    rm = expanded_mask(r)
+    om = mbits(a)
+    if (om & ~rm).any():
+        idx = tuple(int(x) for x in np.argwhere(om & ~rm)[0])
+        return (signature(case) + ':mask-dropped', 'unitary: operand element %s is masked, the result is not' % (idx,))
+    res = rot_residual(r, case, 'unitary')
+    if res:
+        return res
+    v, pos = unmasked_items(r)
+    src = vals_of(a).reshape(-1, 3, 3)[pos] if v.size else v
+    if v.size and not np.abs(v - src).max() <= 0.1:
+        return (signature(case) + ':value', 'unitary: result is not close to the operand')
+    return None
